@@ -272,6 +272,13 @@ def analyse(gm, fn, kind, role):
             if base is not None and base != prev:
                 P("C02.5", "store:base", "store to %s does not preserve the other field of the current value" % field, line(node), sf.flow.cur)
             d = delta_of(v, prev, m, s) if base is not None else None
+            if d is None and base is not None and v[0] == "c":
+                # a constant stored on a path that knows the old count (`switch (count) { case 1: ... SET (.., 0)`): the same as count + d
+                for (c_, truth_) in st.conds:
+                    if truth_ and c_[0] == "cmp" and c_[1] == "==" and c_[3][0] == "c":
+                        cb, cm, cs = classify_count(c_[2])
+                        if cb == prev and cm == m and cs == s:
+                            d = v[1] - c_[3][1]
             rec = (field, m, s, d if d is not None else ("set", v), line(node))
             if field == "waiting_threads":
                 out["wstores"].append(rec)
@@ -387,6 +394,8 @@ def general(prog, rep):
         bad = []
         for (which, m, s, ln) in r["count_reads"]:
             allowed = [Ar, Aw, (ALL, 0)] if which == "active" else [Wr, Ww, (ALL, 0)]
+            # a field tested in place - `word & (mask << shift)` is non-zero exactly when the field is - reads the same field
+            allowed = allowed + [(fm, 0) for (fm, fs) in allowed if fs] + [((fm << fs) & 0xffffffff, 0) for (fm, fs) in allowed if fs]
             if (m, s) not in allowed:
                 bad.append((which, m, s, ln))
         rep.ob("C02.5", fn, "masks", not bad,
@@ -524,7 +533,7 @@ def waiter_registration(prog, rep):
     counted, or the last holder out sees no waiter and signals nobody (the lock is free and the thread sleeps for ever)."""
     gu = prog.unit("prwlock-general.c")
     nreg = 0
-    for f in sorted(gu.functions.values(), key=lambda f_: f_.loc[0]):
+    for f in sorted(gu.roots(), key=lambda f_: f_.loc[0]):           # public functions, a shared "wait while busy" helper inlined
         waits = [(b, i, c) for (b, i, c) in f.calls() if c.get("callee") == "p_cond_variable_wait"]
         if not waits:
             continue
